@@ -21,6 +21,8 @@ enum MemoryBackend<P: PathRefCounter> {
     file: std::fs::File,
     opts: Options,
     remove_on_drop: AtomicBool,
+    /// how the file was mapped (shared or copy-on-write), `truncate` maps it the same way
+    map_fn: fn(MmapOptions, &std::fs::File) -> std::io::Result<memmap2::MmapMut>,
   },
   #[cfg(all(feature = "memmap", not(target_family = "wasm")))]
   Mmap {
@@ -167,16 +169,27 @@ impl<R: RefCounter, PR: PathRefCounter, H: Header> Memory<R, PR, H> {
         *aligned_vec = new;
       }
       MemoryBackend::MmapMut {
-        buf, file, opts, ..
+        buf,
+        file,
+        opts,
+        map_fn,
+        ..
       } => unsafe {
-        let _ = Box::from_raw(*buf);
-
         let current_file_size = file.metadata()?.len();
         if current_file_size < opts.offset + size as u64 {
           file.set_len(opts.offset + size as u64)?;
         }
 
-        let mut mmap = mmap_mut(opts.with_capacity(size as u32).to_mmap_options(), file)?;
+        let mut mmap = map_fn(opts.with_capacity(size as u32).to_mmap_options(), file)?;
+        let old = Box::from_raw(*buf);
+        // a copy-on-write mapping keeps what has been written in private pages, which the new mapping
+        // does not see: carry them over (a shared mapping already shows the same bytes).
+        let n = allocated.min(mmap.len()).min(old.len());
+        if mmap[..n] != old[..n] {
+          mmap[..n].copy_from_slice(&old[..n]);
+        }
+        drop(old);
+
         let ptr = mmap.as_mut_ptr();
         *buf = Box::into_raw(Box::new(mmap));
         self.ptr = ptr;
@@ -362,7 +375,7 @@ impl<R: RefCounter, PR: PathRefCounter, H: Header> Memory<R, PR, H> {
   pub(crate) fn map_mut_in(
     path: std::path::PathBuf,
     opts: Options,
-    f: impl FnOnce(MmapOptions, &std::fs::File) -> std::io::Result<memmap2::MmapMut>,
+    f: fn(MmapOptions, &std::fs::File) -> std::io::Result<memmap2::MmapMut>,
   ) -> std::io::Result<Self> {
     let (create_new, file) = opts.open(path.as_path())?;
     let file_size = file.metadata()?.len();
@@ -445,6 +458,7 @@ impl<R: RefCounter, PR: PathRefCounter, H: Header> Memory<R, PR, H> {
             buf: Box::into_raw(Box::new(mmap)),
             opts,
             file,
+            map_fn: f,
           },
           header_ptr: Either::Left(header_ptr_offset as _),
           ptr,
